@@ -2,7 +2,6 @@ package gen
 
 import (
 	"fmt"
-	"os"
 	"go/ast"
 	"go/constant"
 	"go/token"
@@ -1710,7 +1709,7 @@ var nonNegMemo = map[nonNegKey]bool{}
 // includes len(x), because of the clamp, or because an enclosing condition says so (L > 0, len(x) > n).
 func (b *bounds) tailSlice(x *ast.SliceExpr) (bool, string) {
 	if x.High != nil || x.Slice3 || x.Low == nil {
-		return dbgF(1), ""
+		return false, ""
 	}
 	low := b.unfold(x.Low)
 	clamped := false
@@ -1728,7 +1727,7 @@ func (b *bounds) tailSlice(x *ast.SliceExpr) (bool, string) {
 	}
 	be, ok := ast.Unparen(low).(*ast.BinaryExpr)
 	if !ok || be.Op != token.SUB {
-		return dbgF(2), ""
+		return false, ""
 	}
 	// len(x) - a - b ...: every subtrahend must be non-negative
 	first := ast.Expr(be)
@@ -1743,11 +1742,11 @@ func (b *bounds) tailSlice(x *ast.SliceExpr) (bool, string) {
 	}
 	lx, ok := b.lenOperand(first)
 	if !ok || b.norm(lx) != b.norm(x.X) {
-		return dbgF(3), ""
+		return false, ""
 	}
 	for _, sub := range subs {
 		if !b.nonNeg(sub, 0) {
-			return dbgF(4), ""
+			return false, ""
 		}
 	}
 	if len(subs) > 1 {
@@ -1755,7 +1754,7 @@ func (b *bounds) tailSlice(x *ast.SliceExpr) (bool, string) {
 		if clamped {
 			return true, "the slice starts at max(len(x)-a-b, 0) with a, b never negative"
 		}
-		return dbgF(5), ""
+		return false, ""
 	}
 	// L >= 0
 	nonNegL := clamped
@@ -1802,7 +1801,7 @@ func (b *bounds) tailSlice(x *ast.SliceExpr) (bool, string) {
 	if nonNegL {
 		return true, "the slice starts at L = len(x)-n with n never negative (L <= len(x)) and L never negative (a minimum that includes len(x), a clamp with max(.., 0), or an enclosing condition)"
 	}
-	return dbgF(6), ""
+	return false, ""
 }
 
 // upperTermsIncl: terms T with e <= T (inclusive): e itself and, for a minimum, its operands.
@@ -1968,6 +1967,12 @@ func (b *bounds) assertionOK(f *cfgx.Func, ta *ast.TypeAssertExpr) (bool, string
 		}
 		if !reachable(f, ta, callOracle(isIface, false)) {
 			return true, "dominated by types.IsInterface on the same type, which is defined as exactly this assertion succeeding"
+		}
+		// the type is the checked result of a moq function: `t, err := f(..)` with this assertion unreachable
+		// when err is non-nil, and inside f every return with a nil error hands out a type that
+		// types.IsInterface accepted on the way
+		if ok, why := b.checkedResult(f, ta, sel.X); ok {
+			return true, why
 		}
 		// the type is the constraint of a type parameter (possibly wrapped in a variable made for it)
 		all := true
@@ -2424,6 +2429,10 @@ func (b *bounds) okGuardedTableLookup(st *ast.AssignStmt, use *ast.Ident) bool {
 	if !guarded {
 		return false
 	}
+	if sel, isSel := ast.Unparen(ix.X).(*ast.SelectorExpr); isSel {
+		fld, _ := b.info.ObjectOf(sel.Sel).(*types.Var)
+		return fld != nil && fld.IsField() && b.prog.IsMoqPkg(fld.Pkg()) && b.fieldTableNonEmpty(fld)
+	}
 	tid, isID := ast.Unparen(ix.X).(*ast.Ident)
 	if !isID {
 		return false
@@ -2473,9 +2482,147 @@ func (b *bounds) okGuardedTableLookup(st *ast.AssignStmt, use *ast.Ident) bool {
 	return found && okAll
 }
 
-func dbgF(n int) bool {
-	if os.Getenv("MOQLINT_DEBUG") != "" {
-		fmt.Fprintln(os.Stderr, "tailSlice exit", n)
+// checkedResult: see assertionOK.
+func (b *bounds) checkedResult(f *cfgx.Func, at ast.Node, t ast.Expr) (bool, string) {
+	id, ok := ast.Unparen(t).(*ast.Ident)
+	if !ok {
+		return false, ""
 	}
-	return false
+	v, _ := b.info.ObjectOf(id).(*types.Var)
+	if v == nil || len(b.assigns[v]) != 1 || b.assigns[v][0] != nil {
+		return false, ""
+	}
+	as, ok := b.anodes[v][0].(*ast.AssignStmt)
+	if !ok || len(as.Rhs) != 1 || len(as.Lhs) < 2 {
+		return false, ""
+	}
+	call, ok := ast.Unparen(as.Rhs[0]).(*ast.CallExpr)
+	if !ok {
+		return false, ""
+	}
+	fn, _ := typeutil.Callee(b.info, call).(*types.Func)
+	if fn == nil || !b.prog.IsMoqPkg(fn.Pkg()) {
+		return false, ""
+	}
+	ri := -1
+	for i, l := range as.Lhs {
+		if lid, ok := ast.Unparen(l).(*ast.Ident); ok && b.info.ObjectOf(lid) == v {
+			ri = i
+		}
+	}
+	eid, ok := ast.Unparen(as.Lhs[len(as.Lhs)-1]).(*ast.Ident)
+	if !ok || ri < 0 || ri == len(as.Lhs)-1 {
+		return false, ""
+	}
+	ev, _ := b.info.ObjectOf(eid).(*types.Var)
+	if ev == nil || types.TypeString(ev.Type(), nil) != "error" {
+		return false, ""
+	}
+	// caller side: unreachable when the error is non-nil
+	errSet := func(cond ast.Expr) (bool, bool) {
+		return callOracleExpr(func(e ast.Expr) (bool, bool, bool) {
+			if isT, nonNilTrue := cfgx.NilTestOf(b.info, e, ev); isT {
+				return true, nonNilTrue, !nonNilTrue
+			}
+			return false, false, false
+		})(cond)
+	}
+	if reachable(f, at, errSet) {
+		return false, ""
+	}
+	// callee side
+	d := b.prog.Decl(fn.Origin())
+	cinfo := b.prog.Info(fn.Pkg())
+	if d == nil || d.Body == nil || cinfo == nil {
+		return false, ""
+	}
+	cf := cfgx.New(cinfo, d)
+	cb := newBounds(b.prog, cinfo, d)
+	n, good := 0, 0
+	ast.Inspect(d.Body, func(x ast.Node) bool {
+		if _, isLit := x.(*ast.FuncLit); isLit {
+			return false
+		}
+		rs, ok := x.(*ast.ReturnStmt)
+		if !ok {
+			return true
+		}
+		if len(rs.Results) != len(as.Lhs) {
+			n++
+			return true
+		}
+		last, ok := ast.Unparen(rs.Results[len(rs.Results)-1]).(*ast.Ident)
+		if _, isNil := cinfo.Uses[last].(*types.Nil); !ok || !isNil {
+			return true // an error return: the caller never gets to the assertion
+		}
+		n++
+		want := cb.norm(rs.Results[ri])
+		isIface := func(e ast.Expr) bool {
+			c, ok := ast.Unparen(e).(*ast.CallExpr)
+			if !ok || len(c.Args) != 1 {
+				return false
+			}
+			cfn, _ := typeutil.Callee(cinfo, c).(*types.Func)
+			return cfn != nil && cfn.FullName() == "go/types.IsInterface" && cb.norm(c.Args[0]) == want
+		}
+		if !reachable(cf, rs, callOracle(isIface, false)) {
+			good++
+		}
+		return true
+	})
+	if n > 0 && n == good {
+		return true, fmt.Sprintf("the type is the result of %s, which returns it without an error only behind types.IsInterface on it; the assertion is unreachable when that error is set", load.FuncName(fn))
+	}
+	return false, ""
+}
+
+// fieldTableNonEmpty: the map-typed field of a moq struct is filled only by composite literals
+// `field: map[K]string{k: "non-empty constant", ...}` and is never stored into or reassigned.
+func (b *bounds) fieldTableNonEmpty(fld *types.Var) bool {
+	okAll, found := true, false
+	for _, pk := range b.prog.MoqPackages() {
+		info := pk.TypesInfo
+		for _, f := range pk.Syntax {
+			ast.Inspect(f, func(n ast.Node) bool {
+				switch x := n.(type) {
+				case *ast.KeyValueExpr:
+					if id, ok := x.Key.(*ast.Ident); ok && info.ObjectOf(id) == fld {
+						cl, ok := ast.Unparen(x.Value).(*ast.CompositeLit)
+						if !ok {
+							okAll = false
+							return true
+						}
+						found = true
+						for _, el := range cl.Elts {
+							kv, ok := el.(*ast.KeyValueExpr)
+							if !ok {
+								okAll = false
+								continue
+							}
+							val := info.Types[kv.Value]
+							if val.Value == nil || val.Value.Kind() != constant.String || constant.StringVal(val.Value) == "" {
+								okAll = false
+							}
+						}
+					}
+				case *ast.AssignStmt:
+					for _, l := range x.Lhs {
+						e := ast.Unparen(l)
+						if ix, ok := e.(*ast.IndexExpr); ok {
+							e = ast.Unparen(ix.X)
+						}
+						if sel, ok := e.(*ast.SelectorExpr); ok && info.ObjectOf(sel.Sel) == fld {
+							okAll = false
+						}
+					}
+				case *ast.UnaryExpr:
+					if sel, ok := ast.Unparen(x.X).(*ast.SelectorExpr); ok && x.Op == token.AND && info.ObjectOf(sel.Sel) == fld {
+						okAll = false
+					}
+				}
+				return true
+			})
+		}
+	}
+	return okAll && found
 }
